@@ -22,6 +22,12 @@ mod mon_c01;
 mod mon_c02;
 mod mon_c03;
 mod mon_c04;
+mod mon_c05;
+mod mon_c06;
+mod mon_c07;
+mod mon_c10;
+mod mon_c11;
+mod mon_c12;
 mod mon_c13;
 
 use std::sync::Mutex;
@@ -90,6 +96,12 @@ fn main() {
         "C02" => mon_c02::run(&cfg, &agg),
         "C03" => mon_c03::run(&cfg, &agg),
         "C04" => mon_c04::run(&cfg, &agg),
+        "C05" => mon_c05::run(&cfg, &agg),
+        "C06" => mon_c06::run(&cfg, &agg),
+        "C07" => mon_c07::run(&cfg, &agg),
+        "C10" => mon_c10::run(&cfg, &agg),
+        "C11" => mon_c11::run(&cfg, &agg),
+        "C12" => mon_c12::run(&cfg, &agg),
         "C13" => mon_c13::run(&cfg, &agg),
         other => {
             eprintln!("unknown property {other}");
